@@ -1,4 +1,4 @@
-CONSTANTS K = 4
+CONSTANTS K = 5
   MatchOf <- MCMatch
   PrioOf <- MCPrio
   Dev <- Actual
